@@ -280,8 +280,9 @@ func (qc queryChange) affectsQuery(q url.Values) (bool, error) {
 	if (beforeKey != nil && afterKey != nil && bytes.Equal(beforeKey, afterKey)) || (beforeKey == nil && afterKey == nil) {
 		return false, nil
 	}
-	wasMatch := qc.before != nil && bytes.HasPrefix(beforeKey, iq.KeyPrefix)
-	isMatch := qc.after != nil && bytes.HasPrefix(afterKey, iq.KeyPrefix)
+	// A nil key means the value is not indexed, and never matches
+	wasMatch := beforeKey != nil && bytes.HasPrefix(beforeKey, iq.KeyPrefix)
+	isMatch := afterKey != nil && bytes.HasPrefix(afterKey, iq.KeyPrefix)
 	if iq.FilterKeys != nil {
 		if wasMatch {
 			wasMatch = iq.FilterKeys(beforeKey)
